@@ -194,6 +194,13 @@ def explore(ctx):
         in_kf26 = any(v == '' for v in vals[:-1])
         c = Case('lf%d' % i, STAR, [('logfmt', None)], [text + '\n'], {'logfmt'} | ({'kf26'} if in_kf26 else set()), note={'want_row': want})
         cases.append(c)
+    # text without any pair yields no field: blank lines, and `logfmt from` an empty / blank string
+    for i, (stages, line, want) in enumerate([
+            ([('logfmt', None)], '\n', {}), ([('logfmt', None)], '   \n', {}), ([('logfmt', None)], '\t\n', {}),
+            ([('json', None), ('logfmt', col('m'))], '{"m": "", "id": 1}\n', {'m': '', 'id': 1}),
+            ([('json', None), ('logfmt', col('m'))], '{"m": "  ", "id": 2}\n', {'m': '  ', 'id': 2}),
+            ([('logfmt', None)], 'a=1\n', {'a': 1})]):
+        cases.append(Case('lfblank%d' % i, STAR, stages, [line], {'logfmt'}, note={'want_row': want}))
     results = run_cases(cases)
     nontrivial = set()
     known_hits = 0
